@@ -67,6 +67,12 @@ class Frame:
         return False
 
 
+# integer constants of third-party libraries the package imports by name (libsodium sizes; documented values)
+EXT_CONSTANTS = {f'nacl.bindings.{k}': v for k, v in dict(
+    crypto_sign_BYTES=64, crypto_sign_PUBLICKEYBYTES=32, crypto_sign_SECRETKEYBYTES=64, crypto_sign_SEEDBYTES=32,
+    crypto_scalarmult_BYTES=32, crypto_scalarmult_SCALARBYTES=32, crypto_box_PUBLICKEYBYTES=32, crypto_box_SECRETKEYBYTES=32,
+    crypto_hash_sha256_BYTES=32, crypto_hash_sha512_BYTES=64).items()}
+EXT_CONSTANTS.update({k.replace('nacl.bindings.', 'nacl.bindings.crypto_sign.'): v for k, v in list(EXT_CONSTANTS.items()) if 'crypto_sign_' in k})
 _BINOPS = {ast.Add: _op.add, ast.Sub: _op.sub, ast.Mult: _op.mul, ast.FloorDiv: _op.floordiv, ast.Mod: _op.mod,
            ast.LShift: _op.lshift, ast.RShift: _op.rshift, ast.BitAnd: _op.and_, ast.BitOr: _op.or_,
            ast.BitXor: _op.xor, ast.Pow: _op.pow, ast.Div: _op.truediv}
@@ -406,6 +412,8 @@ class Interp:
 
     def resolve_import(self, tgt, nm, seen=()):
         if tgt == '<ext>':
+            if nm in EXT_CONSTANTS:
+                return K(EXT_CONSTANTS[nm])
             return Ext(nm)
         full = f'{tgt}.{nm}' if tgt else nm
         if full in self.prog.modules and tgt in self.prog.modules and nm not in self.prog.modules[tgt].classes \
@@ -724,6 +732,8 @@ class Interp:
                     return K(t is ast.IsNot)        # only the constant None is None; model objects of library classes never are
                 if isinstance(other, Sym) and other.meta.get('not_none'):
                     return K(t is ast.IsNot)
+                if isinstance(other, (Term, Sym)) and isinstance(self.models.bytes_len(self, other), K):
+                    return K(t is ast.IsNot)        # a byte string of known length is a value, not None
                 if isinstance(other, Term) and other.op in ('hex', 'decode', 'encode', 'cat', 'sha256', 'sha512', 'to_bytes', 'from_bytes', 'fstr', 'tobytes',
                                                             'crc', 'bslice', 'fromhex', 'reversed_bytes', 'int', 'strfmt', 'join'):
                     return K(t is ast.IsNot)        # results of str/bytes/int operations are never None
